@@ -780,9 +780,11 @@ impl WorldGen {
                 // resume with unchanged totals (plain restart), or -- kept -- re-based to a fraction of them (possibly below
                 // what the pending batch holds): batches and requests are none of ResumeContract's business
                 let k = if self.r.chance(30) { 1 + self.r.below(3) as u128 } else { 4 };
+                // ... or to a slashed pool (less stake than LST outstanding: the rate below 1)
+                let slash = if self.r.chance(15) { 2 + self.r.below(2) as u128 } else { 1 };
                 let line = format!(
                     "resume {} {} {}",
-                    v.st.total_native_token.u128() / 4 * k,
+                    v.st.total_native_token.u128() / 4 * k / slash,
                     v.st.total_liquid_stake_token.u128() / 4 * k,
                     v.st.total_reward_amount.u128()
                 );
@@ -1012,6 +1014,14 @@ impl WorldGen {
                 (admin.clone(), "[]".to_string(), "resume 0 0 0".to_string()),
                 (hook_c.clone(), format!("[{}:{}]", hs(D), a), "rewards".to_string()),
             ],
+            // a reward so large that fee rate x reward needs more than 128 bits, into a pool of the same magnitude (the fee is
+            // still the exact floor quotient)
+            vec![
+                (admin.clone(), "[]".to_string(), "breaker".to_string()),
+                (admin.clone(), "[]".to_string(), format!("resume {} {} 0", 10u128.pow(35), 10u128.pow(35))),
+                (hook_c.clone(), format!("[{}:{}]", hs(D), 34 * 10u128.pow(32) + self.r.u128_upto(10u128.pow(35))), "rewards".to_string()),
+                (hook_c.clone(), format!("[{}:{}]", hs(D), 10u128.pow(34) * (1 + self.r.u128_upto(20))), "rewards".to_string()),
+            ],
         ];
         for sq in seqs {
             let snap = clone_storage(&self.w.sim.deps.storage);
@@ -1102,7 +1112,24 @@ impl WorldGen {
         let ch = self.s.channel.clone();
         self.w.hook(&staker, &ch, CHAIN_PREFIX, D, D, short, &format!("unstaked {}", sb.id));
         self.w.tick(1_000_000_000);
-        // while the contract holds the batch's funds: a stake minted to the staker's own address (one transfer of the
+        // while the contract holds the batch's funds (so that the bank would not stop a wrong re-send): a stake whose
+        // transfer is in flight, a timeout and an error acknowledgement of ANOTHER channel carrying its sequence, a recovery
+        // attempt, then the genuine acknowledgement
+        let amt0 = 7_000u128.max(self.s.min) + self.r.u128_upto(5_000);
+        let before: Vec<u64> = self.w.chain.packets.values().filter(|p| p.state == crate::world::PState::Flight).map(|p| p.seq).collect();
+        self.w.exec(Some(13), &a, vec![Coin::new(amt0, D)], "stake - - -");
+        let fresh: Vec<u64> = self.w.chain.packets.values().filter(|p| p.state == crate::world::PState::Flight && !before.contains(&p.seq)).map(|p| p.seq).collect();
+        for q in fresh.iter() {
+            self.w.tick(1_000_000_000);
+            self.w.stray("channel-99999", *q, if self.r.chance(50) { "timeout" } else { "ack_err" });
+        }
+        self.w.tick(1_000_000_000);
+        self.w.exec(Some(14), &b, vec![], "recover - - -");
+        for q in fresh {
+            self.w.tick(1_000_000_000);
+            self.w.relay(q, "ok");
+        }
+        // a stake minted to the staker's own address (one transfer of the
         // staked asset and one of the LST, both to the staker), both refunded, then the recoveries that would have to fuse
         // two denoms -- with spare balance in the contract a wrongly fused re-send would go through
         let amt = 5_000u128.max(self.s.min) + self.r.u128_upto(5_000);
@@ -1262,6 +1289,72 @@ impl WorldGen {
                 self.w.exec(None, &admin, vec![], &format!("recover - {} {}", s_list(&sh, |x| x.to_string()), hs(&staker)));
             }
         }
+    }
+
+    /// Callbacks of another channel that happen to carry the sequence of a transfer in flight, then a recovery attempt,
+    /// then the genuine acknowledgement: the strays change nothing, so there is nothing to recover and nothing is sent twice.
+    pub fn scripted_stray_then_recover(&mut self) {
+        let u = self.s.users[0].clone();
+        let min = self.s.min.max(1000);
+        self.w.faucet(&u, D, 1_000_000 + 2 * min);
+        for k in 0..2u32 {
+            self.w.tick(1_000_000_000);
+            let a = 10_000u128.max(min) + self.r.u128_upto(50_000);
+            self.w.exec(Some(k), &u, vec![Coin::new(a, D)], "stake - - -");
+        }
+        let flying: Vec<u64> = self.w.chain.packets.values().filter(|p| p.state == crate::world::PState::Flight).map(|p| p.seq).collect();
+        for (i, q) in flying.iter().enumerate() {
+            self.w.tick(1_000_000_000);
+            self.w.stray("channel-99999", *q, if i % 2 == 0 { "timeout" } else { "ack_err" });
+        }
+        self.w.tick(1_000_000_000);
+        self.w.exec(None, &u, vec![], "recover - - -");
+        self.w.exec(None, &u, vec![], "recover 1 - -");
+        for q in flying {
+            self.w.tick(1_000_000_000);
+            self.w.relay(q, "ok");
+        }
+    }
+
+    /// A slashed pool (the admin re-bases to half the stake for the same LST) and a pending batch that holds only dust, so
+    /// that the amount set aside at submission rounds down to zero: the batch is still non-empty and, once due, submitted.
+    pub fn scripted_slashed_dust(&mut self) {
+        let admin = self.s.admin.clone();
+        let a = self.s.users[0].clone();
+        let lst = self.s.lst();
+        let min = self.s.min.max(1000);
+        self.w.faucet(&a, D, 1_000_000 + min);
+        self.w.tick(1_000_000_000);
+        self.w.exec(Some(1), &a, vec![Coin::new(100_000u128 + min, D)], "stake - - -");
+        let flying: Vec<u64> = self.w.chain.packets.values().filter(|p| p.state == crate::world::PState::Flight).map(|p| p.seq).collect();
+        for q in flying {
+            self.w.relay(q, "ok");
+        }
+        if self.w.chain.bal(&a, &lst) == 0 {
+            return;
+        }
+        let v = view(&self.w.sim);
+        self.w.tick(1_000_000_000);
+        self.w.exec(None, &admin, vec![], "breaker");
+        self.w.exec(
+            None,
+            &admin,
+            vec![],
+            &format!("resume {} {} {}", v.st.total_native_token.u128() / 3, v.st.total_liquid_stake_token.u128(), v.st.total_reward_amount.u128()),
+        );
+        self.w.tick(1_000_000_000);
+        self.w.exec(Some(2), &a, vec![Coin::new(1u128 + self.r.u128_upto(1), lst.clone())], "unstake");
+        let v = view(&self.w.sim);
+        let Some(pb) = v.batches.iter().find(|x| x.id == v.pending).cloned() else { return };
+        let now_s = self.w.now_ns / 1_000_000_000;
+        let due = pb.next_batch_action_time.unwrap_or(now_s);
+        if due > now_s + 1 {
+            // one second early: refused
+            self.w.tick((due - now_s - 1) * 1_000_000_000);
+            self.w.exec(Some(3), &a, vec![], "submit");
+            self.w.tick(1_000_000_000);
+        }
+        self.w.exec(Some(4), &a, vec![], "submit");
     }
 
     /// More refunded transfers toward the staker than one recovery page (10): the default, the paginated and the
